@@ -61,7 +61,8 @@ def c07_runs(tier):
 
 def c01_runs(tier):
     cfgs = ["default", "noinfo", "heap", "dtostre"]
-    out = []
+    # the rapidcheck-driven twin of the structure-aware target: deterministic from VERIF_SEED
+    out = [{"cfg": c, "bin": "c01", "workers": 4} for c in cfgs]
     if tier == "quick":
         for c in cfgs:
             out.append({"kind": "fuzz", "cfg": "fz-" + c, "bin": "fuzz_stream", "workers": 2, "runs": 150000, "max_len": 600, "corpus": "corpus/stream", "empty_worker": True, "max_time": 120})
@@ -75,17 +76,19 @@ def c01_runs(tier):
 
 PROPS = {
     "C01": {
-        "engine": "libFuzzer",
-        "technique": "coverage-guided fuzzing (libFuzzer, ASan+UBSan+LSan, manual poisoning of the input-buffer tail) of a raw byte-stream target and a structure-aware target, with semantic invariants (buffer cursor, queue indices, canaries) inside the targets",
+        "engine": "libFuzzer + rapidcheck",
+        "technique": "coverage-guided fuzzing (libFuzzer, ASan+UBSan+LSan, manual poisoning of the input-buffer tail) of a raw byte-stream target and a structure-aware target, with semantic invariants (buffer cursor, queue indices, canaries) inside the targets; "
+                     "the structure-aware decoder is also driven by rapidcheck-generated choice sequences (deterministic from the seed, shrinkable)",
         "level": "two libFuzzer targets in each of the four build configurations: byte streams over 0x00-0xFF in chunks of 0..7 bytes with "
                  "zero-length flush calls and chunks that overrun the buffer, input buffers of 2..300 bytes, queues of 1..4, info heaps of "
                  "1..64 bytes, optionally followed by a direct SCPI_Parse of the NUL-terminated line; and grammar-decoded messages (headers "
                  "from the table, typed and malformed parameters, mutations). Handlers apply every SCPI_Param*/Expr*/Result* API with tight "
-                 "caller buffers. Oracle: any sanitizer report, structural invariants after every call, libFuzzer's 25 s hang detector",
+                 "caller buffers; the same grammar decoder driven by rapidcheck (c01) in the four configurations, a quarter of its cases also handed to SCPI_Parse directly. "
+                 "Oracle: any sanitizer report, structural invariants after every call, libFuzzer's 25 s hang detector / the 20 s CPU-time watchdog",
         "level_note": "libFuzzer campaigns are only approximately reproducible from a seed: the saved artifact is the reproducible unit; uninitialised reads are only visible where they change behaviour (no MSan)",
         "design_ref": "DESIGN.md section 4, C01",
         "runs": c01_runs,
-        "rule": "evaluations = executions reported by libFuzzer; distinct_nontrivial = coverage-distinct units of the final corpora that reach >= 1 handler invocation or >= 1 queued error (counted by a classification pass of the target)",
+        "rule": "evaluations = executions reported by libFuzzer + rapidcheck cases; distinct_nontrivial = coverage-distinct units of the final corpora that reach >= 1 handler invocation or >= 1 queued error (counted by a classification pass of the target) + rapidcheck-generated streams, distinct by hash, that do",
         "assumptions": COMMON_ASSUME + ["input buffer length >= 2, queue size >= 1, chunk length >= 0"],
     },
     "C13": {
